@@ -871,6 +871,8 @@ def run(tier, replay=None):
         reentrancy(chk, cases, ncases, plans, scales, rng, quick)
     chk.notes["non_finite_cases"] = nonfin
     chk.notes["main_run_length4_share_replayed"] = {"share": share4, "not_replayed": skipped4}
+    if skipped4:
+        chk.exhaustive = False
     chk.notes["singular_nonempty_cases"] = nsing
     chk.notes["refined_cases"] = nref
     chk.notes["per_scale_singular_regular"] = per_scale
